@@ -4,6 +4,7 @@
 # suite and the demonstration there (changed, then unchanged = /repo), run the named checks against it through
 # VERIF_REPO (neither /repo nor the evidence directory is touched), and remove the worktree.
 ID=$1; SUF=$2; shift; shift
+V=${VERIF_DIR:-/verif}   # where the checks run from (e.g. the stable worktree /work/stable while /verif is being edited)
 W=/tmp/mut/$ID-$SUF
 SRC=$W/_seed
 DST=/verif/seeded/$ID-$SUF
@@ -14,9 +15,9 @@ git -C $W apply "$DST/patch.diff" || { echo "patch does not apply"; exit 2; }
 echo "--- pinned tests (changed):"; (cd $W && PYTHONPATH=$W/src /venv/bin/python -m pytest -q -p no:cacheprovider --timeout=900 --continue-on-collection-errors 2>&1 | tail -1)
 echo "--- demo (changed):"; (cd /tmp && PYTHONPATH=$W/src timeout 300 /venv/bin/python "$DST/demo.py" >/tmp/demo.out 2>&1; echo "demo exit=$?"; tail -2 /tmp/demo.out)
 echo "--- demo (unchanged):"; (cd /tmp && PYTHONPATH=/repo/src timeout 300 /venv/bin/python "$DST/demo.py" >/tmp/demo.out 2>&1; echo "demo exit=$?"; tail -1 /tmp/demo.out)
-cp -r /verif/evidence /tmp/evidence.keep.$$
-for id in "$@"; do echo "--- check $id:"; (cd /verif && VERIF_REPO=$W VERIF_SEED=${VERIF_SEED:-0} timeout 2400 ./check $id 2>&1 | grep -E "VIOLATION|^C[0-9]+ |INFRA|TIMEOUT" | head -6); done
-rm -rf /verif/evidence && mv /tmp/evidence.keep.$$ /verif/evidence
+cp -r $V/evidence /tmp/evidence.keep.$$
+for id in "$@"; do echo "--- check $id:"; (cd $V && VERIF_REPO=$W VERIF_SEED=${VERIF_SEED:-0} timeout 2400 ./check $id 2>&1 | grep -E "VIOLATION|^C[0-9]+ |INFRA|TIMEOUT" | head -6); done
+rm -rf $V/evidence && mv /tmp/evidence.keep.$$ $V/evidence
 # the Gen tables may have been regenerated from the changed tree: bring them back to /repo's
-(cd /verif && /venv/bin/python harness/extract.py >/dev/null 2>&1)
+(cd $V && /venv/bin/python harness/extract.py >/dev/null 2>&1)
 [ -n "$KEEP_WT" ] || git -C /repo worktree remove --force $W
